@@ -43,7 +43,21 @@ Definition lift2 (fi : Z -> Z -> Z) (ff : flt -> flt -> flt) (a b : num) : ares 
 
 Definition num_add := lift2 Z.add (SFadd prec emax).
 Definition num_sub := lift2 Z.sub (SFsub prec emax).
-Definition num_mul := lift2 Z.mul (SFmul prec emax).
+
+(* runtime.py `*`: an int * int product beyond 2^53 continues in floats (float(left) * float(right)), so that both spellings
+   of integral operands give the same number *)
+Definition two53m : Z := 9007199254740992.
+Definition num_mul (a b : num) : ares num :=
+  match a, b with
+  | NInt x, NInt y =>
+    if two53m <? Z.abs (x * y) then
+      match int_to_sf x, int_to_sf y with
+      | Some fx, Some fy => ARes (NFlt (SFmul prec emax fx fy))
+      | _, _ => AErr
+      end
+    else ARes (NInt (x * y))
+  | _, _ => lift2 Z.mul (SFmul prec emax) a b
+  end.
 
 Definition num_neg (a : num) : num :=
   match a with NInt z => NInt (- z) | NFlt f => NFlt (SFopp f) end.
@@ -111,7 +125,9 @@ Definition sf_integral (f : flt) : option Z :=
 
 Definition two53 : Z := 9007199254740992.
 
-Definition num_pow (a b : num) : ares num :=
+Definition bit_length (z : Z) : Z := if z =? 0 then 0 else Z.log2 (Z.abs z) + 1.
+
+Definition num_pow_spelled (a b : num) : ares num :=
   match a, b with
   | NInt x, NInt y =>
     if 0 <=? y then (if (4096 <? y) && negb ((Z.abs x) <=? 1) then AOracle else ARes (NInt (x ^ y)))
@@ -138,6 +154,17 @@ Definition num_pow (a b : num) : ares num :=
       end
     | _, _ => AErr
     end
+  end.
+
+(* runtime.py `**`: int ** positive int whose result may need more than 53 bits (bit_length(|x|) * y > 53) continues in floats:
+   the left operand is converted first (OverflowError when it is too large) *)
+Definition num_pow (a b : num) : ares num :=
+  match a, b with
+  | NInt x, NInt y =>
+    if (0 <? y) && (53 <? bit_length x * y) then
+      match int_to_sf x with Some fx => num_pow_spelled (NFlt fx) b | None => AErr end
+    else num_pow_spelled a b
+  | _, _ => num_pow_spelled a b
   end.
 
 (* exact comparison across spellings; None when a NaN is involved *)
